@@ -79,6 +79,23 @@ type Server struct {
 	// stallCh is closed by Release to let stalled connections finish.
 	stallCh chan struct{}
 	conns   []net.Conn
+	muted   map[int]bool // connections (by number) on which the server has gone silent for good
+}
+
+// Mute makes the server silent on connection id from now on: whatever it reads there stays unanswered.
+func (s *Server) Mute(id int) {
+	s.mu.Lock()
+	if s.muted == nil {
+		s.muted = map[int]bool{}
+	}
+	s.muted[id] = true
+	s.mu.Unlock()
+}
+
+func (s *Server) isMuted(id int) bool {
+	s.mu.Lock()
+	defer s.mu.Unlock()
+	return s.muted[id]
 }
 
 // New creates a server.
@@ -320,6 +337,11 @@ func (x *session) serveCmds() {
 			// port with implicit TLS): nothing readable was sent
 			x.emit("tlshello")
 			x.emit("sclose", "indata", false, "partial", 0)
+			return
+		}
+		if s.isMuted(x.id) { // an idle connection the server no longer answers on (not a fault of the running scenario script)
+			x.emit("muted")
+			<-x.s.stallCh
 			return
 		}
 		raw := strings.TrimRight(line, "\r\n")
